@@ -3,4 +3,5 @@
 set -e
 cd "$(dirname "$0")/sa"
 clang++ $(llvm-config-14 --cxxflags) -fno-rtti -O1 irdump.cc -o irdump /usr/lib/llvm-14/lib/libLLVM-14.so
-echo "built $(pwd)/irdump"
+clang++ $(llvm-config-14 --cxxflags) -fno-rtti -O1 promote.cc -o promote /usr/lib/llvm-14/lib/libLLVM-14.so
+echo "built $(pwd)/irdump $(pwd)/promote"
